@@ -207,6 +207,8 @@ func (f *FibStrategyTree) ClearNextHopsEnc(name enc.Name) {
 	node := f.root.findExactMatchEntryEnc(name)
 	if node != nil {
 		node.nexthops = make([]*FibNextHopEntry, 0)
+		delete(f.fibPrefixes, name.Hash())
+		node.pruneIfEmpty()
 	}
 }
 
@@ -220,6 +222,8 @@ func (f *FibStrategyTree) ReplaceNextHopsEnc(name enc.Name, nexthops map[uint64]
 		// Same as ClearNextHopsEnc
 		if node := f.root.findExactMatchEntryEnc(name); node != nil {
 			node.nexthops = make([]*FibNextHopEntry, 0)
+			delete(f.fibPrefixes, name.Hash())
+			node.pruneIfEmpty()
 		}
 		return
 	}
